@@ -861,6 +861,17 @@ def register(chk):
     c02_more.register(chk)
 
 
+def include_in(chk):
+    """this check's obligations registered inside a check of a layer above (framework.Check.include)"""
+    sys.path.insert(0, os.path.dirname(os.path.abspath(__file__)))
+    for cfg in ("A", "P64") + (("P32",) if chk.tier == "thorough" else ()):
+        prog_for(cfg)
+    import c03
+    c03.x86_prog()
+    chk.replayer = replay_kernel
+    register(chk)
+
+
 def main(argv=None):
     sys.modules.setdefault("c02", sys.modules[__name__])      # helpers `import c02`: they must see this module instance (its program cache)
     chk = Check("C02", "proof", argv)
